@@ -267,6 +267,7 @@ func (P *Program) Check(opt CheckOpts) int {
 	}
 	os.RemoveAll(replayDir)
 	covers := 0
+	var coverUndecided []string
 	seenKnown := map[string]bool{}
 	ndeps := 0
 	for _, r := range results {
@@ -293,6 +294,9 @@ func (P *Program) Check(opt CheckOpts) int {
 			total++
 			if o.ExpectSat {
 				covers++
+				if o.Undecided() {
+					coverUndecided = append(coverUndecided, o.Name)
+				}
 			}
 			failed := o.Failed()
 			if len(r.Unsupported) > 0 {
@@ -385,9 +389,9 @@ func (P *Program) Check(opt CheckOpts) int {
 	}
 	level := "proof"
 	expl := ""
-	if len(knownLines) > 0 || len(violations) > 0 || discharged != total {
+	if len(knownLines) > 0 || len(violations) > 0 || discharged != total || len(coverUndecided) > 0 {
 		level = "other"
-		expl = fmt.Sprintf("%d of %d obligations discharged; %d open known findings; %d violations. Level is 'proof' only when every obligation is discharged.", discharged, total, len(knownLines), len(violations))
+		expl = fmt.Sprintf("%d of %d obligations discharged (%d vacuity guards undecided); %d open known findings; %d violations. Level is 'proof' only when every obligation is discharged.", discharged, total, len(coverUndecided), len(knownLines), len(violations))
 	}
 	if note := P.PropertyNote(prop); note != "" {
 		if strings.HasPrefix(note, "partial:") {
@@ -412,6 +416,13 @@ func (P *Program) Check(opt CheckOpts) int {
 	}
 	if expl != "" {
 		ev.Coverage["explanation"] = expl
+	}
+	if len(coverUndecided) > 0 {
+		sort.Strings(coverUndecided)
+		ev.Coverage["cover_undecided"] = coverUndecided
+		for _, n := range coverUndecided {
+			fmt.Printf("COVER-UNDECIDED %s (no solver decided this vacuity guard; nothing is concluded from it)\n", n)
+		}
 	}
 	if len(boundedRecs) > 0 {
 		ev.Coverage["bounded_standins"] = boundedRecs
